@@ -55,7 +55,8 @@ def build_harness():
         shutil.rmtree(alt, ignore_errors=True)
         shutil.copytree(HARNESS, alt, ignore=shutil.ignore_patterns("target"))
         ct = os.path.join(alt, "Cargo.toml")
-        open(ct, "w").write(open(ct).read().replace('path = "/repo"', f'path = "{REPO}"'))
+        txt = open(ct).read().replace('path = "/repo"', f'path = "{REPO}"')
+        open(ct, "w").write(txt)
         HARNESS = alt
     lock_src = os.path.join(REPO, "Cargo.lock")
     lock_dst = os.path.join(HARNESS, "Cargo.lock")
